@@ -8,7 +8,7 @@ import subprocess
 import sys
 
 VERIF = os.path.dirname(os.path.dirname(os.path.abspath(__file__)))
-CROSS = {"C19-m1": ["C01"], "C01-m3": ["C04"], "C14-m2": ["C13"], "C06-m3": ["C13"], "C01-m2": ["C11"]}
+CROSS = {"C19-m1": ["C01"], "C19-w6m3": ["C04"], "C01-m3": ["C04"], "C14-m2": ["C13"], "C06-m3": ["C13"], "C01-m2": ["C11"]}
 
 
 def one(sid):
